@@ -1,5 +1,5 @@
 import JunoModel.Common.Proto
-import JunoModel.C04.Model
+import JunoModel.C04.ModelBC
 /-!
 Line-protocol driver for the C04 model (`lake build c04drv`).
 
@@ -12,14 +12,24 @@ Line-protocol driver for the C04 model (`lake build c04drv`).
                                              distinct roots in order of first appearance)
   storewrongroot <node> <same tokens>      -> the same block with a wrong new state root: "err:rootNew" expected
   revert <node>                            -> "ok" | "err:<Err>"
-  dump <node> <family>                     -> canonical content of one bucket family
+  dump <node> <family>                     -> canonical content of one bucket family (`running` initialises the
+                                              lazy filter first, as `WriteRunningEventFilter` does; `snapshot`,
+                                              `cache`, `hot` are the process-level parts of `BC`)
+  dumpfrom <node> <family> <n>             -> the same, entries of blocks >= n only (block-keyed families)
+  kill <node>                              -> "ok": new Blockchain instance on the same database
+  shutdown <node>                          -> "ok" | "err:<Err>": WriteRunningEventFilter
+  evict <node> <window start>              -> "ok"
+  query <node> <lo> <hi>                   -> "ok [block=bloom,...]" | "err:<Err>": candidate blocks of an event query
+  copy <src> <dst>                         -> "ok"
+  bulk <node> <v> <hash>*                  -> "ok": a new process on a database holding that many empty blocks
+A node is a `BC` (ModelBC.lean): database + lazily initialised running filter + snapshot bucket + window cache.
 All numbers are hex without prefix.
 -/
 open Juno.Proto Juno.C04
 
 structure DState where
   cfg : Cfg
-  nodes : List (String × Node)
+  nodes : List (String × BC)
   roots : List Root
 
 def DState.init : DState :=
@@ -27,9 +37,9 @@ def DState.init : DState :=
              legacyPurgeOnUpdate := false, legacyDedupDeclared := true, window := 8192 },
     nodes := [], roots := [] }
 
-def getNode (s : DState) (id : String) : Option Node := (s.nodes.find? (·.1 == id)).map (·.2)
+def getNode (s : DState) (id : String) : Option BC := (s.nodes.find? (·.1 == id)).map (·.2)
 
-def putNode (s : DState) (id : String) (n : Node) : DState :=
+def putNode (s : DState) (id : String) (n : BC) : DState :=
   { s with nodes := (id, n) :: s.nodes.filter (·.1 != id) }
 
 def rootId (s : DState) (r : Root) : DState × Nat :=
@@ -110,24 +120,27 @@ def join (xs : List String) : String := if xs.isEmpty then "-" else " ".intercal
 
 def bloomsText (m : Map Nat Nat) : String := "[" ++ ",".intercalate (m.map (fun e => hx e.1 ++ "=" ++ hx e.2)) ++ "]"
 
-def dump (s : DState) (nd : Node) (family : String) : DState × String :=
+def filterText (f : Filter) : String := s!"{hx f.fromBlock}:{hx f.next}:" ++ bloomsText f.blooms
+
+/-- `lo`: only entries of blocks >= lo (block-keyed families) -/
+def dump (s : DState) (nd : Node) (family : String) (lo : Nat := 0) : DState × String :=
   match family with
   | "height" => (s, match nd.height with | none => "none" | some h => hx h)
   | "headers" =>
-    let (s', out) := nd.headers.foldl (fun (acc : DState × List String) e =>
+    let (s', out) := (nd.headers.filter (fun e => lo ≤ e.1)).foldl (fun (acc : DState × List String) e =>
       let (s1, rid) := rootId acc.1 e.2.root
       (s1, acc.2 ++ [s!"{hx e.1}:{hx e.2.hash}:{hx e.2.parent}:{hx e.2.ver}:{hx e.2.bloom}:{hx rid}"])) (s, [])
     (s', join out)
-  | "numByHash" => (s, join (nd.numByHash.map (fun e => s!"{hx e.1}:{hx e.2}")))
-  | "blockTxs" => (s, join (nd.blockTxs.map (fun e => s!"{hx e.1}:" ++ ",".intercalate (e.2.map (fun t => hx t.hash)))))
-  | "txLoc" => (s, join (nd.txLoc.map (fun e => s!"{hx e.1}:{hx e.2.1}:{hx e.2.2}")))
+  | "numByHash" => (s, join ((nd.numByHash.filter (fun e => lo ≤ e.2)).map (fun e => s!"{hx e.1}:{hx e.2}")))
+  | "blockTxs" => (s, join ((nd.blockTxs.filter (fun e => lo ≤ e.1)).map (fun e => s!"{hx e.1}:" ++ ",".intercalate (e.2.map (fun t => hx t.hash)))))
+  | "txLoc" => (s, join ((nd.txLoc.filter (fun e => lo ≤ e.2.1)).map (fun e => s!"{hx e.1}:{hx e.2.1}:{hx e.2.2}")))
   | "l1msg" => (s, join (nd.l1msg.map (fun e => s!"{hx e.1}:{hx e.2}")))
-  | "sus" => (s, join (nd.sus.map (fun e => hx e.1)))
-  | "commitments" => (s, join (nd.commitments.map (fun e => hx e.1)))
+  | "sus" => (s, join ((nd.sus.filter (fun e => lo ≤ e.1)).map (fun e => hx e.1)))
+  | "commitments" => (s, join ((nd.commitments.filter (fun e => lo ≤ e.1)).map (fun e => hx e.1)))
   | "casm" => (s, join (nd.casm.map (fun e =>
       s!"{hx e.1}:{hx e.2.declaredAt}:{hx e.2.v2}:{hx e.2.migratedAt}:" ++ (match e.2.v1 with | none => "-" | some h => hx h))))
   | "persisted" => (s, join (nd.persisted.map (fun e => s!"{hx e.1}:" ++ bloomsText e.2)))
-  | "running" => (s, s!"{hx nd.running.fromBlock}:{hx nd.running.next}:" ++ bloomsText nd.running.blooms)
+  | "running" => (s, filterText nd.running)
   | "contracts" => (s, join (nd.st.contracts.map (fun e => s!"{hx e.1}:{hx e.2.nonce}:{hx e.2.classHash}:{hx e.2.deployedAt}")))
   | "storage" => (s, join (nd.st.storage.map (fun e => s!"{hx e.1.1}:{hx e.1.2}:{hx e.2}")))
   | "classes" => (s, join (nd.st.classes.map (fun e => s!"{hx e.1}:{hx e.2.declaredAt}:" ++ (if e.2.defn.sierra then "s" else "c"))))
@@ -136,6 +149,18 @@ def dump (s : DState) (nd : Node) (family : String) : DState × String :=
   | "hNonce" => (s, join (nd.st.hNonce.map (fun e => s!"{hx e.1.1}:{hx e.1.2}:{hx e.2}")))
   | "hClass" => (s, join (nd.st.hClass.map (fun e => s!"{hx e.1.1}:{hx e.1.2}:{hx e.2}")))
   | _ => (s, "bad-op")
+
+/-- dump of a `BC`: the process-level parts, and `running` through `ensureInit` -/
+def dumpBC (s : DState) (id : String) (bc : BC) (family : String) (lo : Nat := 0) : DState × String :=
+  match family with
+  | "running" =>
+    match ensureHot s.cfg bc with
+    | .ok bc1 => (putNode s id bc1, filterText bc1.nd.running)
+    | .error e => (s, "err:" ++ errName e)
+  | "snapshot" => (s, match bc.snapshot with | none => "none" | some f => filterText f)
+  | "cache" => (s, join (bc.cache.map (fun e => s!"{hx e.1}:" ++ bloomsText e.2)))
+  | "hot" => (s, if bc.hot then "1" else "0")
+  | _ => dump s bc.nd family lo
 
 def flag? (s : String) : Option Bool := if s == "1" then some true else if s == "0" then some false else none
 
@@ -149,43 +174,74 @@ def step (s : DState) (line : String) : DState × String :=
                   legacyPurgeOnUpdate := e, legacyDedupDeclared := g, window := w },
          nodes := [], roots := [] }, "ok")
     | _, _, _, _, _, _, _ => (s, "bad-op")
-  | ["new", id] => (putNode s id Node.init, "ok")
+  | ["new", id] => (putNode s id BC.init, "ok")
+  | "bulk" :: id :: v :: hs =>
+    -- a fresh process on the database that holds `hs.length` empty blocks (closed form, see ModelChain.lean)
+    match hexToNat? v, hs.mapM hexToNat? with
+    | some v, some hs => (putNode s id { BC.init with nd := { bulkNode s.cfg v hs with running := coldFilter } }, "ok")
+    | _, _ => (s, "bad-op")
   | ["copy", src, dst] =>
     match getNode s src with
     | some nd => (putNode s dst nd, "ok")
     | none => (s, "bad-op")
   | "store" :: id :: toks =>
     match getNode s id, parseBlock toks with
-    | some nd, some b =>
-      let b' := withRoots s.cfg nd b
-      match store s.cfg nd b' with
-      | .ok nd' =>
+    | some bc, some b =>
+      let b' := withRoots s.cfg bc.nd b
+      match BC.store s.cfg bc b' with
+      | (bc', .ok _) =>
         let (s1, rid) := rootId s b'.newRoot
-        (putNode s1 id nd', s!"ok {hx rid}")
-      | .error e => (s, "err:" ++ errName e)
+        (putNode s1 id bc', s!"ok {hx rid}")
+      | (bc', .error e) => (putNode s id bc', "err:" ++ errName e)
     | _, _ => (s, "bad-op")
   | "storewrongroot" :: id :: toks =>
     -- the block with a new state root that is NOT the one the update produces (what a caller with a
     -- corrupt state update hands to Store): must fail in the root verification inside the batch
     match getNode s id, parseBlock toks with
-    | some nd, some b =>
-      let b' := withRoots s.cfg nd b
+    | some bc, some b =>
+      let b' := withRoots s.cfg bc.nd b
       let wrong : Root := if b'.newRoot == Root.zero then Root.contractsOnly [(0, (0, 0))] [] else Root.zero
-      match store s.cfg nd { b' with newRoot := wrong } with
-      | .ok nd' => (putNode s id nd', "ok")
-      | .error e => (s, "err:" ++ errName e)
+      match BC.store s.cfg bc { b' with newRoot := wrong } with
+      | (bc', .ok _) => (putNode s id bc', "ok")
+      | (bc', .error e) => (putNode s id bc', "err:" ++ errName e)
     | _, _ => (s, "bad-op")
   | ["revert", id] =>
     match getNode s id with
-    | some nd =>
-      match revert s.cfg nd with
-      | .ok nd' => (putNode s id nd', "ok")
-      | .error e => (s, "err:" ++ errName e)
+    | some bc =>
+      match BC.revert s.cfg bc with
+      | (bc', .ok _) => (putNode s id bc', "ok")
+      | (bc', .error e) => (putNode s id bc', "err:" ++ errName e)
     | none => (s, "bad-op")
+  | ["kill", id] =>
+    match getNode s id with
+    | some bc => (putNode s id bc.kill, "ok")
+    | none => (s, "bad-op")
+  | ["shutdown", id] =>
+    match getNode s id with
+    | some bc =>
+      match BC.shutdown s.cfg bc with
+      | (bc', .ok _) => (putNode s id bc', "ok")
+      | (bc', .error e) => (putNode s id bc', "err:" ++ errName e)
+    | none => (s, "bad-op")
+  | ["evict", id, w] =>
+    match getNode s id, hexToNat? w with
+    | some bc, some w => (putNode s id (bc.evict w), "ok")
+    | _, _ => (s, "bad-op")
+  | ["query", id, lo, hi] =>
+    match getNode s id, hexToNat? lo, hexToNat? hi with
+    | some bc, some lo, some hi =>
+      match BC.query s.cfg bc lo hi with
+      | .ok (ans, bc') => (putNode s id bc', "ok " ++ bloomsText ans)
+      | .error e => (s, "err:" ++ errName e)
+    | _, _, _ => (s, "bad-op")
   | ["dump", id, family] =>
     match getNode s id with
-    | some nd => dump s nd family
+    | some bc => dumpBC s id bc family
     | none => (s, "bad-op")
+  | ["dumpfrom", id, family, lo] =>
+    match getNode s id, hexToNat? lo with
+    | some bc, some lo => dumpBC s id bc family lo
+    | _, _ => (s, "bad-op")
   | _ => (s, "bad-op")
 
 def main : IO Unit := loop step DState.init
